@@ -9,7 +9,8 @@ AFS = ["", "(R)", "Spouse", "Spouse (R)", "Zed", "B", "Defaulty"]
 GAPS = [0, 0, 0, 1, 1, 2, 5, 13, 27, 28, 29, 30, 31, 32, 33, 45, 90, 200]
 WINDOW_GAPS = [0, 1, 2, 28, 29, 30, 31, 32]
 RATIOS = [("2", "1"), ("3", "1"), ("3", "2"), ("1", "2"), ("1.0", "2.0"), ("10", "1"),
-          ("5", "4"), ("1", "3"), ("1.0", "3.0"), ("2", "3"), ("1.5", "1"), ("1", "10"), ("7", "1"), ("1", "7")]
+          ("5", "4"), ("1", "3"), ("1.0", "3.0"), ("2", "3"), ("1.5", "1"), ("1", "10"), ("7", "1"), ("1", "7"),
+          ("2", "4"), ("4", "10"), ("3", "9"), ("2", "6"), ("6", "4")]     # ratios not in lowest terms
 TERMINATING = [("2", "1"), ("3", "2"), ("1", "2"), ("1.0", "2.0"), ("10", "1"), ("5", "4"), ("1.5", "1"), ("1", "10")]
 
 
